@@ -115,22 +115,37 @@ let model_run dec (capmb : n) node ops =
      | _ -> stop := Some i; raise Exit)) ops with Exit -> ());
   (List.rev !steps, !stop)
 
+(* an implementation observable of a history: "ok <steps>" or, when op number i failed (NewStorage returned an error, or
+   a panic), "panic <msg> after=<i> <steps before it>".  Returns (failure index, message, steps string). *)
+let split_impl impl : (int option * string * string) option =
+  if starts impl "ok " then Some (None, "", String.sub impl 3 (String.length impl - 3))
+  else if starts impl "panic " then
+    match List.rev (split ' ' impl) with
+    | stp :: aft :: rest when starts aft "after=" ->
+      (match int_of_string_opt (String.sub aft 6 (String.length aft - 6)) with
+       | Some i -> Some (Some i, String.concat " " (List.rev rest), stp)
+       | None -> None)
+    | _ -> None
+  else None
+
 let model_string (steps, stop) impl =
+  let stp = match steps with [] -> "." | _ -> String.concat ";" steps in
   match stop with
-  | None -> "ok " ^ (match steps with [] -> "." | _ -> String.concat ";" steps)
+  | None -> "ok " ^ stp
   | Some i ->
-    (* the implementation reports "panic <msg> after=<i>"; the message is not modelled *)
-    let tag = Printf.sprintf "after=%d" i in
-    if starts impl "panic" && (let l = String.length impl and t = String.length tag in l >= t && String.sub impl (l - t) t = tag)
-    then impl else Printf.sprintf "panic after=%d" i
+    (* the failure message is not modelled: it is taken from the implementation when it fails at the same op *)
+    (match split_impl impl with
+     | Some (Some j, msg, _) when j = i -> Printf.sprintf "%s after=%d %s" msg i stp
+     | _ -> Printf.sprintf "panic after=%d %s" i stp)
 
 (* ---- implementation observations *)
 type obs = { res : string; radius : n; rads : string; cnt : n; recs : string; recn : n option; held : n; gets : string list }
 let is_hex s = s <> "" && (let ok = ref true in String.iter (fun c -> if not ((c >= '0' && c <= '9') || (c >= 'a' && c <= 'f')) then ok := false) s; !ok)
 (* None when the observation is not of the expected shape (reported as such, never an exception) *)
 let parse_obs impl : obs list option =
-  if not (starts impl "ok ") then None else
-  let body = String.sub impl 3 (String.length impl - 3) in
+  match split_impl impl with
+  | None -> None
+  | Some (_, _, body) ->
   if body = "." then Some [] else
   let steps = List.map (fun s -> match split ',' s with
     | [res; rad; cnt; recs; held; gets] when is_hex rad ->
@@ -429,30 +444,53 @@ let handle fields impl : string option * string list =
     let pobs = parse_obs impl in
     let impl_res i = match pobs with Some l when i < List.length l -> (List.nth l i).res | _ -> "?" in
     let m = model_string (hybrid_model_run capmb node ops impl_res) impl in
-    let mons = match pobs with
-      | None -> ["hybrid-history-panics-fails-or-unparsable " ^ (if String.length impl > 120 then String.sub impl 0 120 else impl)]
-      | Some obs when List.length obs <> List.length ops -> ["hybrid-history-observation-count"]
-      | Some obs -> hybrid_monitors capmb node ops obs in
+    let mons = match split_impl impl, pobs with
+      | Some (fail, _, _), Some obs ->
+        let expected = (match fail with None -> List.length ops | Some f -> f) in
+        if List.length obs <> expected then ["hybrid-history-observation-count"]
+        else
+          (match fail with
+           | Some f -> [Printf.sprintf "hybrid-history-panics-fails-or-unparsable step=%d %s" f (if String.length impl > 120 then String.sub impl 0 120 else impl)]
+           | None -> []) @ hybrid_monitors capmb node (take_l expected ops) obs
+      | _ -> ["hybrid-history-panics-fails-or-unparsable " ^ (if String.length impl > 120 then String.sub impl 0 120 else impl)] in
     (Some m, mons)
   | [kind; capmb; node; opss] when String.length kind = 3 && (kind.[0] = 'h' || kind = "z04") ->
     let capmb = (match n_of_dec_opt capmb with Some c -> c | None -> zero) and node = Util.bytes_of_hex node and ops = parse_ops opss in
     let m = model_string (model_run le_dec capmb node ops) impl in
-    let mons = match parse_obs impl with
-      | None ->
-        (* Outside the quantifier (the node id itself or ids of another length are used) the code can panic - e.g.
-           NewStorage on a size record shorter than 8 bytes - and the faithful model says so at the same step: that is
-           not a violation of this property.  With valid ids only, or when the model does not predict it, it is. *)
-        if m = impl && not (List.for_all (valid_id node) (pool ops)) then []
-        else [kind ^ "-history-panics-fails-or-unparsable " ^ (if String.length impl > 120 then String.sub impl 0 120 else impl)]
-      | Some obs when List.length obs <> List.length ops -> ["history-observation-count"]
-      | Some obs ->
-        (match kind with
-         | "h04" -> c04_monitors capmb node ops obs
-         | "z04" -> List.map (fun f -> "state-wrapper-" ^ f) (c04_monitors capmb node ops obs)
-         | "h05" -> c05_monitors capmb node ops obs
-         | "h06" -> attribute_le capmb node ops impl (c06_raw node ops obs) "pebble-storage-distance-read-little-endian"
-         | "h17" -> c17_monitors capmb node ops obs impl
-         | _ -> []) in
+    (* Rule for ids outside the quantifier (the node id itself, ids of another length): the model is faithful there
+       too - it mirrors the size record being overwritten, NewStorage panicking on a short record and NewStorage
+       failing with `prune error, size < currentSize` - so model and implementation are compared step by step over the
+       WHOLE history (a difference is a DIFF).  The property monitors, however, are evaluated only on the steps BEFORE
+       the first put under an excluded id; and a history that fails (error or panic) is reported by the monitor only
+       when it fails before such a put - with valid ids the theorems say it cannot fail. *)
+    let rec first_excl i = function
+      | [] -> max_int
+      | P (id, _) :: _ when not (valid_id node id) -> i
+      | _ :: t -> first_excl (i + 1) t in
+    let excl = first_excl 0 ops in
+    let short s = if String.length s > 120 then String.sub s 0 120 else s in
+    let mons = match split_impl impl, parse_obs impl with
+      | Some (fail, _, _), Some obs ->
+        let expected = (match fail with None -> List.length ops | Some f -> f) in
+        if List.length obs <> expected then ["history-observation-count"]
+        else begin
+          let failmon = match fail with
+            | Some f when f < excl -> [Printf.sprintf "%s-history-panics-fails-or-unparsable step=%d %s" kind f (short impl)]
+            | _ -> [] in
+          let n = min excl expected in
+          let ops_t = take_l n ops and obs_t = take_l n obs in
+          failmon @
+          (match kind with
+           | "h04" -> c04_monitors capmb node ops_t obs_t
+           | "z04" -> List.map (fun f -> "state-wrapper-" ^ f) (c04_monitors capmb node ops_t obs_t)
+           | "h05" -> c05_monitors capmb node ops_t obs_t
+           (* these two attribute failures by re-running the model on the whole history: only without excluded ids
+              and without a failure *)
+           | "h06" when n = List.length ops -> attribute_le capmb node ops impl (c06_raw node ops obs) "pebble-storage-distance-read-little-endian"
+           | "h17" when n = List.length ops -> c17_monitors capmb node ops obs impl
+           | _ -> [])
+        end
+      | _ -> [kind ^ "-history-panics-fails-or-unparsable " ^ short impl] in
     (Some m, mons)
   | ["crash"; capmb; node; opss; k] ->
     let capmb = (match n_of_dec_opt capmb with Some c -> c | None -> zero) and node = Util.bytes_of_hex node and ops = parse_ops opss and k = int_of_string k in
